@@ -437,35 +437,55 @@ package opset13
 
 //@ func (*GRU).gateCalculation
 //@   tags C06,C02
+//@   before Apply#1 assert input_product_is_x_times_w_transposed_plus_wb: len($arg1) == 3 && $arg1[0] == Xt && $arg1[1] == W && $arg1[2] == Wb && !$arg0.transA && $arg0.transB && $arg0.alpha == fone32() && $arg0.beta == fone32()
+//@   before Apply#2 assert hidden_product_is_h_times_r_transposed_plus_rb: len($arg1) == 3 && $arg1[0] == H && $arg1[1] == R && $arg1[2] == Rb && !$arg0.transA && $arg0.transB && $arg0.alpha == fone32() && $arg0.beta == fone32()
 //@   requires activation_is_supported: known_activation(activation)
 //@   ensures new_result: err == nil ==> result != nil && fresh(result)
 
 //@ func (*GRU).htCalculation
 //@   tags C06,C02
+//@   before gateCalculation assert without_linear_before_reset_the_reset_gate_scales_the_previous_state: !self.linearBeforeReset && $arg1 == Xt && binkind(contents($arg2)) == 3 &&
+//@          binlhs(contents($arg2)) == contents(rt) && binrhs(contents($arg2)) == contents(prevH) && $arg3 == W && $arg4 == R && $arg5 == Wb && $arg6 == Rb && ref($arg7) == ref(activation)
+//@   before Apply#1 assert input_product_is_x_times_w_transposed_plus_wb: self.linearBeforeReset && len($arg1) == 3 && $arg1[0] == Xt && $arg1[1] == W && $arg1[2] == Wb && !$arg0.transA && $arg0.transB && $arg0.alpha == fone32() && $arg0.beta == fone32()
+//@   before Apply#2 assert hidden_product_is_h_times_r_transposed_plus_rb: len($arg1) == 3 && $arg1[0] == prevH && $arg1[1] == R && $arg1[2] == Rb && !$arg0.transA && $arg0.transB && $arg0.alpha == fone32() && $arg0.beta == fone32()
+//@   before Add assert with_linear_before_reset_the_reset_gate_scales_the_hidden_product: binkind(contents($arg0)) == 3 && binrhs(contents($arg0)) == contents(rt)
 //@   requires activation_is_supported: known_activation(activation)
 //@   ensures new_result: err == nil ==> result != nil && fresh(result)
 
 //@ func (*GRU).hiddenCalculation
 //@   tags C06,C02
+//@   ensures one_minus_z_times_candidate_plus_z_times_previous: err == nil ==> binkind(contents(result)) == 1 &&
+//@          binkind(binlhs(contents(result))) == 3 && binrhs(binlhs(contents(result))) == contents(ht) &&
+//@          binkind(binlhs(binlhs(contents(result)))) == 2 && binrhs(binlhs(binlhs(contents(result)))) == contents(zt) &&
+//@          binkind(binrhs(contents(result))) == 3 && binlhs(binrhs(contents(result))) == contents(zt) && binrhs(binrhs(contents(result))) == contents(prevH)
 //@   ensures new_result: err == nil ==> result != nil && fresh(result)
 
 //@ func (*LSTM).gateCalculation
 //@   tags C06,C02
+//@   before Apply#1 assert input_product_is_x_times_w_transposed_plus_wb: len($arg1) == 3 && $arg1[0] == Xt && $arg1[1] == W && $arg1[2] == Wb && !$arg0.transA && $arg0.transB && $arg0.alpha == fone32() && $arg0.beta == fone32()
+//@   before Apply#2 assert hidden_product_is_h_times_r_transposed_plus_rb: len($arg1) == 3 && $arg1[0] == H && $arg1[1] == R && $arg1[2] == Rb && !$arg0.transA && $arg0.transB && $arg0.alpha == fone32() && $arg0.beta == fone32()
+//@   before UnidirectionalBroadcast assert peephole_weights_are_broadcast_to_the_cell_state: $arg0 == C && $arg1 == P
 //@   requires activation_is_supported: known_activation(activation)
 //@   ensures new_result: err == nil ==> result != nil && fresh(result)
 
 //@ func (*LSTM).cellCalculation
 //@   tags C06,C02
+//@   ensures forget_times_cell_plus_input_times_candidate: err == nil ==> binkind(contents(result)) == 1 &&
+//@          binkind(binlhs(contents(result))) == 3 && binlhs(binlhs(contents(result))) == contents(ft) && binrhs(binlhs(contents(result))) == contents(Ct) &&
+//@          binkind(binrhs(contents(result))) == 3 && binlhs(binrhs(contents(result))) == contents(it) && binrhs(binrhs(contents(result))) == contents(ct)
 //@   ensures new_result: err == nil ==> result != nil && fresh(result)
 
 //@ func (*LSTM).hiddenCalculation
 //@   tags C06,C02
+//@   ensures output_gate_times_activated_cell: err == nil ==> binkind(contents(result)) == 3 && binlhs(contents(result)) == contents(ot)
 //@   requires activation_is_supported: known_activation(activation)
 //@   requires cell_state_present: Ct != nil
 //@   ensures new_result: err == nil ==> result != nil && fresh(result)
 
 //@ func (*RNN).layerCalculation
 //@   tags C06,C02
+//@   before Apply#1 assert input_product_is_x_times_wi_transposed_plus_wbi: len($arg1) == 3 && $arg1[0] == Xt && $arg1[1] == Wi && $arg1[2] == Wbi && !$arg0.transA && $arg0.transB && $arg0.alpha == fone32() && $arg0.beta == fone32()
+//@   before Apply#2 assert hidden_product_is_h_times_ri_transposed_plus_rbi: len($arg1) == 3 && $arg1[0] == H && $arg1[1] == Ri && $arg1[2] == Rbi && !$arg0.transA && $arg0.transB && $arg0.alpha == fone32() && $arg0.beta == fone32()
 //@   requires activation_is_supported: known_activation(activation)
 //@   ensures new_result: err == nil ==> result != nil && fresh(result)
 
@@ -663,6 +683,80 @@ package opset13
 //@   before Reshape assert intercept_count_after_the_loop: forall k :: 0 <= k && k < len(n.Attribute) && n.Attribute[k].Name == "intercepts" && (forall j :: k < j && j < len(n.Attribute) ==> n.Attribute[j].Name != "intercepts") ==> self.intercepts != nil && dim(self.intercepts, 0) == len(n.Attribute[k].Floats)
 //@   before T assert intercept_count_untouched_by_the_reshape: forall k :: 0 <= k && k < len(n.Attribute) && n.Attribute[k].Name == "intercepts" && (forall j :: k < j && j < len(n.Attribute) ==> n.Attribute[j].Name != "intercepts") ==> self.intercepts != nil && dim(self.intercepts, 0) == len(n.Attribute[k].Floats)
 
+
+// Slice (parameter handling only): where the slice objects are placed and what they hold. What
+// gorgonia's Slice then selects (and that it drops sliced axes of extent 1) is not specified.
+
+//@ func (*Slice).getDefaultAxes
+//@   tags C08,C02
+//@   requires nSlices >= 0
+//@   ensures natural_order: len(result) == maxi(nSlices, 0) && (forall k :: 0 <= k && k < len(result) ==> result[k] == k)
+//@   loop 1 invariant 0 <= i && (i <= nSlices || i == 0) && len(axes) == maxi(nSlices, 0) && (len(axes) == 0 || fresh(axes)) && (forall k :: 0 <= k && k < i ==> axes[k] == k)
+
+//@ func (*Slice).getDefaultSteps
+//@   tags C08,C02
+//@   requires nSlices >= 0
+//@   ensures unit_steps: len(result) == maxi(nSlices, 0) && (forall k :: 0 <= k && k < len(result) ==> result[k] == 1)
+//@   loop 1 invariant 0 <= i && (i <= nSlices || i == 0) && len(steps) == maxi(nSlices, 0) && (len(steps) == 0 || fresh(steps)) && (forall k :: 0 <= k && k < i ==> steps[k] == 1)
+
+//@ spec slicer_is(s tensor.Slice, start int, end int, step int) bool = s != nil && typeof(s) == tagof("*ops.Slicer") && allocated(unbox(s, "*ops.Slicer")) &&
+//@          unbox(s, "*ops.Slicer").start == start && unbox(s, "*ops.Slicer").end == end && unbox(s, "*ops.Slicer").step == step
+
+//@ func (*Slice).constructSlices
+//@   tags C08,C02
+//@   scope one_entry_per_axis: len(starts) == len(axes) && len(ends) == len(axes) && len(steps) == len(axes) && nTotalSlices >= 0 &&
+//@          (forall k :: 0 <= k && k < len(axes) ==> 0 - nTotalSlices <= axes[k] && axes[k] < nTotalSlices)
+//@   ensures one_slot_per_data_axis: len(result) == nTotalSlices
+//@   ensures listed_axes_get_their_slice: forall k :: 0 <= k && k < len(axes) && (forall j :: k < j && j < len(axes) ==> normax(axes[j], nTotalSlices) != normax(axes[k], nTotalSlices)) ==>
+//@          slicer_is(result[normax(axes[k], nTotalSlices)], starts[k], ends[k], steps[k])
+//@   ensures other_axes_are_kept_whole: forall p :: 0 <= p && p < nTotalSlices && (forall k :: 0 <= k && k < len(axes) ==> normax(axes[k], nTotalSlices) != p) ==> result[p] == nil
+//@   loop 1 invariant 0 <= i && i <= nTotalSlices && len(slices) == nTotalSlices && (nTotalSlices == 0 || fresh(slices)) && (forall p :: 0 <= p && p < i ==> slices[p] == nil)
+//@   loop 2 invariant len(slices) == nTotalSlices && (nTotalSlices == 0 || fresh(slices))
+//@   loop 2 invariant forall k :: 0 <= k && k < $i && (forall j :: k < j && j < $i ==> normax(axes[j], nTotalSlices) != normax(axes[k], nTotalSlices)) ==>
+//@          slicer_is(slices[normax(axes[k], nTotalSlices)], starts[k], ends[k], steps[k])
+//@   loop 2 invariant forall p :: 0 <= p && p < nTotalSlices && (forall k :: 0 <= k && k < $i ==> normax(axes[k], nTotalSlices) != p) ==> slices[p] == nil
+
+//@ func (*Slice).Apply
+//@   tags C08,C02
+//@   requires self != nil
+//@   scope inputs_validated: len(inputs) == 5 && inputs[0] != nil && inputs[1] != nil && inputs[2] != nil
+//@   scope index_vectors: blen(inputs[1]) == nelems(shapeof(inputs[1])) && blen(inputs[2]) == nelems(shapeof(inputs[2]))
+//@   modifies opstate(self)
+//@   before constructSlices assert one_slot_per_axis_of_the_data: $arg5 == rank(inputs[0])
+//@   before constructSlices assert default_axes_are_the_leading_ones: inputs[3] == nil ==> len($arg4) == len($arg1) && (forall k :: 0 <= k && k < len($arg4) ==> $arg4[k] == k)
+//@   before constructSlices assert default_steps_are_one: inputs[4] == nil ==> len($arg3) == len($arg1) && (forall k :: 0 <= k && k < len($arg3) ==> $arg3[k] == 1)
+
+// Gather (shape level): axis handling, index range check, output shape. The element movement
+// (gather: Slice / PairwiseAssign over an iterator) is gorgonia's and is not specified.
+
+//@ func (*Gather).Init
+//@   tags C08,C02
+//@   requires self != nil && n != nil
+//@   scope attributes_present: forall k :: 0 <= k && k < len(n.Attribute) ==> n.Attribute[k] != nil
+//@   modifies opstate(self)
+//@   ensures axis_stored: len(n.Attribute) == 1 && n.Attribute[0].Name == "axis" ==> err == nil && self.axis == n.Attribute[0].I
+//@   ensures default_axis_kept: len(n.Attribute) == 0 ==> err == nil && self.axis == old(self.axis)
+//@   ensures other_attribute_refused: len(n.Attribute) == 1 && n.Attribute[0].Name != "axis" ==> err != nil
+//@   ensures several_attributes_refused: len(n.Attribute) > 1 ==> err != nil
+
+//@ spec gather_axis(self *Gather, data tensor.Tensor) int = normax(self.axis, rank(data))
+
+//@ func (*Gather).Apply
+//@   tags C08,C02
+//@   requires self != nil
+//@   scope inputs_validated: len(inputs) == 2 && inputs[0] != nil && inputs[1] != nil
+//@   scope data_and_indices: rank(inputs[0]) >= 1 && dims_positive(inputs[0]) && dims_positive(inputs[1]) && blen(inputs[1]) == nelems(shapeof(inputs[1])) &&
+//@          (dtype(inputs[1]) == Int64 || dtype(inputs[1]) == Int32)
+//@   modifies opstate(self)
+//@   ensures axis_out_of_range_refused: self.axis < 0 - rank(inputs[0]) || self.axis >= rank(inputs[0]) ==> err != nil
+//@   ensures index_out_of_range_refused: 0 - rank(inputs[0]) <= self.axis && self.axis < rank(inputs[0]) && rank(inputs[1]) >= 1 && dtype(inputs[1]) == Int64 &&
+//@          (exists k :: 0 <= k && k < blen(inputs[1]) && (old(tdata(inputs[1], "int64")[k]) < 0 - dim(inputs[0], gather_axis(self, inputs[0])) || old(tdata(inputs[1], "int64")[k]) >= dim(inputs[0], gather_axis(self, inputs[0])))) ==> err != nil
+//@   ensures result_rank_and_type: err == nil ==> len(result) == 1 && result[0] != nil && fresh(result[0]) && dtype(result[0]) == dtype(inputs[0]) &&
+//@          rank(result[0]) == rank(inputs[0]) - 1 + rank(inputs[1])
+//@   ensures leading_extents_from_data: err == nil ==> (forall k :: 0 <= k && k < gather_axis(self, inputs[0]) ==> dim(result[0], k) == dim(inputs[0], k))
+//@   ensures index_extents_replace_the_axis: err == nil ==> (forall k :: 0 <= k && k < rank(inputs[1]) ==> dim(result[0], gather_axis(self, inputs[0]) + k) == dim(inputs[1], k))
+//@   ensures trailing_extents_from_data: err == nil ==> (forall k :: gather_axis(self, inputs[0]) + 1 <= k && k < rank(inputs[0]) ==> dim(result[0], k - 1 + rank(inputs[1])) == dim(inputs[0], k))
+//@   ensures axis_unchanged: self.axis == old(self.axis)
 
 //@ func gather
 //@   tags C02
